@@ -27,7 +27,8 @@ type c12Case struct {
 	Calls     []call     `json:"calls"`
 	Plain     []int      `json:"plain_requests_per_terminal"` // heartbeats/locations sent while commands are outstanding
 	Reverse   bool       `json:"release_held_in_reverse"`
-	Preload   int        `json:"preload_heartbeats,omitempty"` // heartbeats answered on terminal 0 before the commands (serial wrap)
+	Preload   int        `json:"preload_heartbeats,omitempty"`                          // heartbeats answered on terminal 0 before the commands (serial wrap)
+	Intruder  bool       `json:"second_connection_presents_terminal0s_phone,omitempty"` // refused just before the commands are issued; terminal 0 stays commandable
 }
 
 var commandIDs = []uint16{0x8103, 0x8104, 0x8801, 0x9101, 0x9102, 0x9205, 0x9206, 0x9207}
@@ -37,7 +38,7 @@ func (c call) body() []byte {
 }
 
 func genC12(t *rapid.T) c12Case {
-	c := c12Case{Reverse: rapid.Bool().Draw(t, "reverse")}
+	c := c12Case{Reverse: rapid.Bool().Draw(t, "reverse"), Intruder: rapid.IntRange(0, 3).Draw(t, "intruder") == 0}
 	n := rapid.IntRange(1, 3).Draw(t, "terminals")
 	for i := 0; i < n; i++ {
 		c.Terminals = append(c.Terminals, genIdentity(t, i, fmt.Sprintf("id%d", i)))
@@ -87,6 +88,12 @@ func genC12(t *rapid.T) c12Case {
 func c12Scenario(c c12Case) Scenario {
 	sc := Scenario{}
 	parties := len(c.Terminals) + 1
+	if c.Intruder {
+		parties++
+		sc.Actors = append(sc.Actors, Actor{Name: "intruder", Kind: "terminal", Steps: []Step{{Op: "dial"}, {Op: "barrier", Barrier: "joined", Parties: parties},
+			{Op: "write", Hex: frame(c.Terminals[0], 0x0002, 0x4000, nil)}, {Op: "wait_eof", DeadlineMs: 3000}, {Op: "close", Mode: "fin"},
+			{Op: "barrier", Barrier: "calls_done", Parties: parties}}})
+	}
 	for i, id := range c.Terminals {
 		var rules []Rule
 		held := 0
@@ -135,6 +142,9 @@ func c12Scenario(c c12Case) Scenario {
 		sc.Actors = append(sc.Actors, Actor{Name: fmt.Sprintf("t%d", i), Kind: "terminal", Steps: steps})
 	}
 	ps := []Step{{Op: "barrier", Barrier: "joined", Parties: parties}}
+	if c.Intruder {
+		ps = append(ps, Step{Op: "pause", PauseUs: 40000}) // the refusal (and whatever the refused connection's teardown does) comes first
+	}
 	defaultTimeout := false
 	for _, k := range c.Calls {
 		defaultTimeout = defaultTimeout || k.TimeoutMs == 0
@@ -326,6 +336,9 @@ func checkC12(c c12Case, _ *kit.Collector) kit.Result {
 	}
 	if outOfOrder {
 		res.Labels = append(res.Labels, "responses_out_of_order")
+	}
+	if c.Intruder {
+		res.Labels = append(res.Labels, "refused_duplicate_connection_before_the_commands")
 	}
 	res.Labels = dedup(append(res.Labels, fmt.Sprintf("terminals_%d", len(c.Terminals))))
 	res.NT = concurrent && (outOfOrder || len(c.Calls) >= 3)
